@@ -1,7 +1,11 @@
 """Which units (functions under contract, lemmas, regex and frame obligations) decide which property."""
 from __future__ import annotations
 
-EXTRA = {}      # prop -> [(kind, name)] filled by the engines' registration below
+EXTRA = {}
+
+# Properties stated over the whole parse call tree: their check also discharges the contract of
+# every callee applied at a call site (transitively), not only the units tagged with the property.
+CLOSED_OVER_CALLEES = {"C18"}      # prop -> [(kind, name)] filled by the engines' registration below
 
 
 def plan(prop, reg, tier):
